@@ -22,19 +22,25 @@ class S:
     growth = {}
     total = 0
     max_per_request = 0
+    input_len = 0
+    dups = Counter()
+    dup_names = {}
 
 
 installed = False
 
 
-def reset(budget=None, track=False):
+def reset(budget=None, track=False, input_len=0):
     S.max_per_request = max(S.max_per_request, S.count)
     S.count = 0
     S.budget = budget
     S.track = track
+    S.input_len = input_len
     if track:
         S.cores = Counter()
         S.growth = {}
+        S.dups = Counter()
+        S.dup_names = {}
 
 
 def tick_output():
@@ -44,17 +50,41 @@ def tick_output():
 
 
 def witness(min_admissions=64):
-    """The most-admitted (column, core) if it shows growth, else None."""
+    """A divergence witness, or None.
+
+    (1) growth: the most-admitted (column, core) keeps admitting larger and larger child forests
+        (node count beyond what a derivation of an input of this length can need, and still rising);
+    (2) duplicate: the very same state (core + children) was admitted into one column several times,
+        which the column's uniqueness test is meant to make impossible."""
+    if S.dups:
+        key, n = S.dups.most_common(1)[0]
+        if n > 4:
+            return {"kind": "duplicate-state", "core": S.dup_names.get(key, "?"), "admissions": n,
+                    "children_len_first": 0, "children_len_last": 0}
     if not S.cores:
         return None
-    key, n = S.cores.most_common(1)[0]
-    if n <= min_admissions:
-        return None
-    g = S.growth.get(key, [])
-    if len(g) >= 2 and g[-1] > g[0]:
-        return {"core": key[1], "admissions": n, "children_len_first": g[0], "children_len_last": g[-1],
-                "growth_samples": g[:3] + g[-3:]}
+    for key, n in S.cores.most_common(5):
+        if n <= min_admissions:
+            continue
+        g = S.growth.get(key, [])
+        if len(g) < 9:
+            continue
+        third = len(g) // 3
+        bound = 60 + 25 * S.input_len
+        if max(g) > bound and max(g[-third:]) > max(g[:third]) and max(g[-third:]) > 2 * max(g[:3]):
+            return {"kind": "growing-children", "core": key[1], "admissions": n, "children_len_first": g[0],
+                    "children_len_last": max(g[-third:]), "growth_samples": g[:3] + g[-3:], "bound": bound}
     return None
+
+
+def _node_count(children, cap=3000):
+    n = 0
+    stack = list(children)
+    while stack and n < cap:
+        t = stack.pop()
+        n += 1
+        stack.extend(t._children)
+    return n
 
 
 def install():
@@ -76,8 +106,16 @@ def install():
                     key = (id(self), repr(core))
                     S.cores[key] += 1
                     g = S.growth.setdefault(key, [])
-                    if len(g) < 4000:
-                        g.append(len(state.children))
+                    c = S.cores[key]
+                    if c <= 3 or (c > 32 and c % 16 == 0):
+                        g.append(_node_count(state.children))
+                    try:
+                        dk = (id(self), hash(state))
+                        S.dups[dk] += 1
+                        if S.dups[dk] == 5:
+                            S.dup_names[dk] = repr(core)
+                    except Exception:
+                        pass
                 if S.budget is not None and S.count > S.budget:
                     raise StepBudgetExceeded()
             return r
